@@ -686,7 +686,7 @@ func (e *specEnv) call(x *ast.CallExpr) specVal {
 			return specVal{tr.ctxDone(arg(0).t), tBool}
 		}
 	default:
-		if sf, ok := tr.eng.contracts.specs[name]; ok {
+		if sf, ok := tr.eng.contracts.spec(name); ok {
 			return e.applySpec(sf, x)
 		}
 		e.errf("unknown function %s", name)
@@ -746,7 +746,7 @@ func treeish(tr *Tr, x ast.Expr, depth int) bool {
 	if id.Name == "ite" && len(call.Args) == 3 {
 		return true
 	}
-	if sf := tr.eng.contracts.specs[id.Name]; sf != nil && !sf.rec && !sf.abstract && sf.body != nil && isBoolType(sf.rtype) && len(call.Args) == len(sf.params) {
+	if sf, _ := tr.eng.contracts.spec(id.Name); sf != nil && !sf.rec && !sf.abstract && sf.body != nil && isBoolType(sf.rtype) && len(call.Args) == len(sf.params) {
 		return treeish(tr, sf.body, depth+1)
 	}
 	return false
@@ -774,7 +774,7 @@ func (e *specEnv) tree(x ast.Expr) *GoalTree {
 			}
 			return &GoalTree{Cond: c, A: e.tree(call.Args[1]), B: e.tree(call.Args[2])}
 		}
-		sf := e.tr.eng.contracts.specs[id.Name]
+		sf, _ := e.tr.eng.contracts.spec(id.Name)
 		bind := map[string]specVal{}
 		for i, v := range e.specArgs(sf, call) {
 			if len(v.t) > 40 && !e.tr.openTerm(v.t) {
